@@ -147,6 +147,26 @@ pub fn gen_case(t: &mut Tape) -> Case {
         Some(_) => ("    fn tagline<'a>(&self, n: &'a str) -> &'a str;\n", "    fn tagline<'a>(&self, n: &'a str) -> &'a str { rt::trace(format!(\"TL|{}|{}\", rt::addr(self), n)); n }\n"),
         None => ("", ""),
     };
+    // a generic method whose type parameter appears in no argument and not in the return type (static selectors:
+    // generic methods are not dyn-compatible): the caller names it with a turbofish, the forwarding call has to pass it on
+    let phantom = !dynamic && t.chance(1, 4);
+    let (phantom_decl, phantom_impl) = if phantom {
+        (
+            "    fn sized<W: ::core::fmt::Debug + Default, const K: usize>(&self, x: i32) -> String;\n",
+            "    fn sized<W: ::core::fmt::Debug + Default, const K: usize>(&self, x: i32) -> String { let __r = format!(\"SZ|{}|{}|{:?}|{}\", rt::addr(self), x, W::default(), K); rt::trace(__r.clone()); __r }\n",
+        )
+    } else {
+        ("", "")
+    };
+    // an associated fn without a receiver (static selectors): `Impl<T>`'s is `T`'s
+    let selfless = !dynamic && t.chance(1, 5);
+    let (selfless_decl, selfless_impl) = if selfless {
+        ("    fn make(x: i32, y: i32) -> String;\n", "    fn make(x: i32, y: i32) -> String { let __r = format!(\"MK|{}|{}\", x, y); rt::trace(__r.clone()); __r }\n")
+    } else {
+        ("", "")
+    };
+    // the supertrait has a (provided) method of the same name as the trait's first method
+    let sup_same_name = supertrait && t.flip();
     let mut opts: Vec<String> = vec![];
     match selector {
         1 => opts.push("delegate_by = Self".into()),
@@ -189,7 +209,11 @@ pub fn gen_case(t: &mut Tape) -> Case {
     let at = if use_async_trait { "#[::async_trait::async_trait]\n" } else { "" };
 
     let mut src = String::from("#![allow(warnings)]\nuse crate::rt;\nuse ::core::marker::PhantomData;\n#[derive(Debug, Clone, PartialEq)] pub struct N(pub i32);\n#[derive(Debug, Clone, PartialEq)] pub struct S { pub a: i32 }\n");
-    src.push_str("pub trait Sup {}\nimpl<T> Sup for ::entrait::Impl<T> {}\n");
+    if sup_same_name {
+        src.push_str(&format!("pub trait Sup {{ fn {}(&self) -> u8 {{ 0 }} }}\nimpl<T> Sup for ::entrait::Impl<T> {{}}\n", methods[0].name));
+    } else {
+        src.push_str("pub trait Sup {}\nimpl<T> Sup for ::entrait::Impl<T> {}\n");
+    }
     // users of `delegate_by = Borrow` / `ref` typically import the std trait by name to write their impl
     if dynamic && t.flip() {
         src.push_str(if selector == 3 { "use ::std::borrow::Borrow;\n" } else { "use ::std::convert::AsRef;\nuse ::std::ops::Deref;\n" });
@@ -204,12 +228,19 @@ pub fn gen_case(t: &mut Tape) -> Case {
             (plain.len() >= 2).then(|| (mi, plain[0], plain[plain.len() - 1]))
         })
         .filter(|_| t.chance(1, 6));
+    // or the trait (with its `&self` receivers) is written in a macro and the entrait attribute is handed in by the caller
+    // as plain tokens: the receiver and the attribute come from different hygiene contexts
+    let attr_from_call = hygiene.is_none() && t.chance(1, 8);
     let mut trait_methods = methods.clone();
     if let Some((mi, _, j)) = hygiene {
         trait_methods[mi].params[j].name = "$p".to_string();
         src.push_str("macro_rules! __mk_tr { ($p:ident) => {\n");
     }
-    src.push_str(&format!("/*GEN*/ #[::entrait::entrait({attr})]\n{at}pub trait Tr{tg}{sup_src}{tw} {{\n"));
+    if attr_from_call {
+        src.push_str(&format!("macro_rules! __mk_tr {{ ($($a:tt)*) => {{\n$($a)*\n{at}pub trait Tr{tg}{sup_src}{tw} {{\n"));
+    } else {
+        src.push_str(&format!("/*GEN*/ #[::entrait::entrait({attr})]\n{at}pub trait Tr{tg}{sup_src}{tw} {{\n"));
+    }
     for m in &trait_methods {
         src.push_str(&format!("    {};\n", m.sig(false).replace("u: U", u_decl)));
     }
@@ -219,9 +250,14 @@ pub fn gen_case(t: &mut Tape) -> Case {
     }
     src.push_str(assoc_decl);
     src.push_str(borrow_decl);
+    src.push_str(phantom_decl);
+    src.push_str(selfless_decl);
     src.push_str("}\n");
     if let Some((mi, i, _)) = hygiene {
         src.push_str(&format!("}} }}\n__mk_tr!({});\n", methods[mi].params[i].name));
+    }
+    if attr_from_call {
+        src.push_str(&format!("}} }}\n/*GEN*/ __mk_tr!(#[::entrait::entrait({attr})]);\n/*TWIN*/ __mk_tr!();\n"));
     }
     // recording providers: Rec (Sync) and NsRec (!Sync)
     // a !Sync provider cannot implement a trait whose async methods return Send futures borrowing `&self`
@@ -234,6 +270,8 @@ pub fn gen_case(t: &mut Tape) -> Case {
         }
         src.push_str(assoc_impl);
         src.push_str(borrow_impl);
+        src.push_str(phantom_impl);
+        src.push_str(selfless_impl);
         src.push_str("}\n");
     }
     // application types per selector
@@ -274,6 +312,8 @@ pub fn gen_case(t: &mut Tape) -> Case {
             }
             src.push_str(assoc_impl);
             src.push_str(borrow_impl);
+            src.push_str(phantom_impl);
+            src.push_str(selfless_impl);
             src.push_str("}\n");
         }
     }
@@ -288,6 +328,8 @@ pub fn gen_case(t: &mut Tape) -> Case {
                 }
                 sp.push_str(assoc_impl);
                 sp.push_str(borrow_impl);
+                sp.push_str(phantom_impl);
+                sp.push_str(selfless_impl);
                 sp.push_str("}\n");
             }
             _ => {
@@ -345,6 +387,22 @@ pub fn gen_case(t: &mut Tape) -> Case {
         src.push_str("/*GEN*/ rt::expect_eq(&mut fails, \"borrowed-return method: call trace\", &t_via, &t_direct);\n");
         src.push_str("    }\n");
     }
+    if phantom {
+        src.push_str("    {\n        let _ = rt::take();\n        let direct = Tr::sized::<(u8, bool), 5>(provider(&app), 9);\n        let t_direct = rt::take();\n");
+        src.push_str("/*GEN*/ let via = Tr::sized::<(u8, bool), 5>(&app, 9);\n        let t_via = rt::take();\n");
+        src.push_str("/*GEN*/ rt::expect_eq(&mut fails, \"method with type/const parameters named by the caller only: result through Impl<T> vs the provider\", &via, &direct);\n");
+        src.push_str("/*GEN*/ rt::expect_eq(&mut fails, \"method with type/const parameters named by the caller only: call trace\", &t_via, &t_direct);\n");
+        src.push_str("        if t_direct.len() != 1 { fails.push(format!(\"HARNESS: sized traced {} entries on the provider\", t_direct.len())); }\n");
+        src.push_str("    }\n");
+    }
+    if selfless {
+        src.push_str(&format!("    {{\n        let _ = rt::take();\n        let direct = <Rec as Tr{targ}>::make(5, 6);\n        let t_direct = rt::take();\n"));
+        src.push_str(&format!("/*GEN*/ let via = <::entrait::Impl<App> as Tr{targ}>::make(5, 6);\n        let t_via = rt::take();\n"));
+        src.push_str("/*GEN*/ rt::expect_eq(&mut fails, \"associated fn without a receiver: result through Impl<T> vs the provider\", &via, &direct);\n");
+        src.push_str("/*GEN*/ rt::expect_eq(&mut fails, \"associated fn without a receiver: call trace\", &t_via, &t_direct);\n");
+        src.push_str("        if t_direct.len() != 1 { fails.push(format!(\"HARNESS: make traced {} entries on the provider\", t_direct.len())); }\n");
+        src.push_str("    }\n");
+    }
     if assoc {
         src.push_str("    {\n        let _ = rt::take();\n        let direct = format!(\"{:?}\", Tr::tag(provider(&app), 31));\n        let t_direct = rt::take();\n");
         src.push_str("/*GEN*/ let via = format!(\"{:?}\", Tr::tag(&app, 31));\n        let t_via = rt::take();\n");
@@ -392,6 +450,18 @@ pub fn gen_case(t: &mut Tape) -> Case {
     if hygiene.is_some() {
         classes.push("trait_from_macro_rules_with_same_spelled_parameters");
     }
+    if attr_from_call {
+        classes.push("trait_in_macro_rules_attribute_from_the_invocation");
+    }
+    if phantom {
+        classes.push("method_generics_named_by_caller_only");
+    }
+    if selfless {
+        classes.push("associated_fn_without_receiver");
+    }
+    if sup_same_name {
+        classes.push("supertrait_method_of_the_same_name");
+    }
     if generic_flavour > 0 {
         classes.push(["", "trait_type_parameter_with_default", "trait_type_parameter_maybe_sized"][generic_flavour]);
     }
@@ -401,8 +471,28 @@ pub fn gen_case(t: &mut Tape) -> Case {
     if any_async {
         classes.push(if use_async_trait { "async_with_async_trait" } else { "async_static" });
     }
-    let summary = format!("#[entrait({attr})] {}trait Tr{tg}{sup_src} {{ {} }}", at.trim(), methods.iter().map(|m| m.sig(false)).collect::<Vec<_>>().join("; "));
+    let mut extras: Vec<&str> = vec![];
+    if phantom {
+        extras.push("fn sized<W: Debug + Default, const K: usize>(&self, x: i32) -> String");
+    }
+    if selfless {
+        extras.push("fn make(x: i32, y: i32) -> String");
+    }
+    if sup_same_name {
+        extras.push("[Sup has a provided method named like the first method]");
+    }
+    if attr_from_call {
+        extras.push("[trait written in a macro_rules! body, attribute passed in as tokens]");
+    }
+    let summary = format!(
+        "#[entrait({attr})] {}trait Tr{tg}{sup_src} {{ {} }}",
+        at.trim(),
+        methods.iter().map(|m| m.sig(false)).chain(extras.iter().map(|e| e.to_string())).collect::<Vec<_>>().join("; ")
+    );
     let twin: String = src.lines().filter(|l| !l.starts_with("/*GEN*/")).collect::<Vec<_>>().join("\n");
+    let strip_twin = |s: &str| s.lines().filter(|l| !l.starts_with("/*TWIN*/")).collect::<Vec<_>>().join("\n");
+    let src = strip_twin(&src);
+    let static_probe = (strip_twin(&static_probe.0), strip_twin(&static_probe.1));
     Case { src, twin, summary, nontrivial: same_sig || same_typed || generic || dynamic, classes, static_probe }
 }
 
@@ -427,6 +517,9 @@ pub fn run(ctx: &mut Ctx) {
                 distinct = distinct program text"
         .into();
     ctx.assumptions.push("don't-care: whether an async + `ref` trait additionally needs `T: Send` (not probed)".into());
+    if !probe_known(ctx) {
+        return;
+    }
     let n = ctx.n(1200, 10000) as usize;
     let tapes = crate::drive::gen_tapes(ctx.seed, 600, n, TAPE_LEN);
     let cases: Vec<Case> = tapes.iter().map(|tp| gen_case(&mut Tape::new(tp))).collect();
@@ -481,6 +574,51 @@ pub fn run(ctx: &mut Ctx) {
     if violations == 0 && faults * 50 > cases.len() {
         crate::ev::inconclusive(&format!("{faults} of {} C06 programs have a twin that does not compile (generator fault); first: {:?}", cases.len(), failed.first().map(|f| (&f.0, &f.3))));
     }
+}
+
+/// Open known findings (known_findings.txt) are probed with their stored reproducers: still failing in the stored way =>
+/// KNOWN-FINDING; failing in another way => violation. The generator does not produce these shapes.
+fn probe_known(ctx: &mut Ctx) -> bool {
+    for f in crate::ev::open_findings("C06") {
+        let variants: Vec<(&str, &str)> = match f.key.as_str() {
+            "deprecated-method-attribute-mirrored" => vec![
+                ("", "#[deprecated]"),
+                ("delegate_by = ref", "#[deprecated(note = \"use new\")]"),
+                ("", "#[cfg_attr(all(), deprecated)]"),
+            ],
+            other => crate::ev::inconclusive(&format!("known_findings.txt lists an open C06 finding with an unknown key: {other}")),
+        };
+        let mut still = 0;
+        for (attr, dep) in &variants {
+            let body = format!("pub trait Tr: 'static {{\n    {dep}\n    fn old(&self, x: u8) -> u8;\n    fn new(&self, x: u8) -> u8;\n}}\npub fn run() -> Vec<String> {{ vec![] }}\n");
+            let real = format!("#![allow(warnings)]\n#[::entrait::entrait({attr})]\n{body}");
+            let twin = format!("#![allow(warnings)]\n{body}");
+            let mut b = Batch::new("c06-known", Opts { feature_unimock: false, members: 2, check_only: true, ..Default::default() });
+            b.add("c00000", real.clone());
+            b.add("t00000", twin);
+            let out = b.build_and_run();
+            b.cleanup();
+            ctx.count_eval();
+            if out.compile_failed.contains_key("t00000") {
+                crate::ev::inconclusive("C06 known-finding probe: the twin does not compile");
+            }
+            if let Some(d) = out.compile_failed.get("c00000") {
+                if d.iter().any(|x| x.message.contains("`#[deprecated]` attribute cannot be used on trait methods in impl blocks") || x.code.contains("useless_deprecated")) {
+                    still += 1;
+                } else {
+                    ctx.violation(
+                        &format!("known finding `{}` now fails differently: {}", f.key, d.first().map(|x| format!("{} {}", x.code, x.message)).unwrap_or_default()),
+                        &json!({"engine": "E2", "src": real, "summary": format!("#[entrait({attr})] trait Tr {{ {dep} fn old(&self, x: u8) -> u8; .. }}")}),
+                    );
+                    return false;
+                }
+            }
+        }
+        if still > 0 {
+            ctx.known(&format!("key={} {} ({still}/{} probes still fail)", f.key, f.what, variants.len()));
+        }
+    }
+    true
 }
 
 /// `'static`: `Impl<BorrowedApp<'a>>: Tr` must be rejected for a caller-chosen 'a although `BorrowedApp<'a>` provides the trait
